@@ -17,20 +17,21 @@ ELEMS = {'TC': 'vh::ETC', 'TC1': 'vh::ETC1', 'TR': 'vh::ETR', 'NTR': 'vh::ENTR',
 ALLOCS = {'amcled': 1, 'stdlike': 2, 'withrealloc': 3, 'amc': 4, 'std': 5}
 
 
-def slot(flav, n=0, st='u32'):
-    """(C++ type, model description) of one pool slot"""
+def slot(flav, n=0, st='u32', alloc='A'):
+    """(C++ type, model description) of one pool slot; alloc 'A' = the configuration's allocator, 'A2' = another type"""
     ctype, mx = SIZE_T[st]
+    aid = 1 if alloc == 'A' else 2
     if flav == 'vector':
-        t = 'amc::vector<E,A<E>,%s>' % ctype
-        return t, dict(flav='vector', n=0, maxsz=mx)
+        t = 'amc::vector<E,%s<E>,%s>' % (alloc, ctype)
+        return t, dict(flav='vector', n=0, maxsz=mx, aid=aid)
     if flav == 'small':
-        t = 'amc::SmallVector<E,%d,A<E>,%s>' % (n, ctype)
-        return t, dict(flav='small', n=n, maxsz=mx)
+        t = 'amc::SmallVector<E,%d,%s<E>,%s>' % (n, alloc, ctype)
+        return t, dict(flav='small', n=n, maxsz=mx, aid=aid)
     if flav == 'fixed':
         t = 'amc::FixedCapacityVector<E,%d>' % n
-        return t, dict(flav='fixed', n=n, maxsz=255 if n <= 255 else 65535)
+        return t, dict(flav='fixed', n=n, maxsz=255 if n <= 255 else 65535, aid=0)
     if flav == 'std':
-        return 'std::vector<E,A<E>>', dict(flav='vector', n=0, maxsz=BIG, ref=True)
+        return 'std::vector<E,A<E>>', dict(flav='vector', n=0, maxsz=BIG, ref=True, aid=1)
     raise ValueError(flav)
 
 
@@ -58,7 +59,7 @@ class ImplCfg:
         types = [t for t, _ in self.slots]
         tid = [types.index(t) + 1 for t in types]
         return dict(K=len(ms), Flav=[m['flav'] for m in ms], NInl=[m['n'] for m in ms], MaxSz=[m['maxsz'] for m in ms],
-                    TypeId=tid)
+                    TypeId=tid, AllocId=[m['aid'] for m in ms])
 
     def is_ref(self):
         return any(m.get('ref') for _, m in self.slots)
@@ -78,12 +79,12 @@ def mc_export(base, model, params, name):
     if os.path.exists(done):
         return d, json.load(open(done))
     copy_specs(d)
-    defs = dict(CK=model['K'], CFlav=model['Flav'], CNInl=model['NInl'], CMaxSz=model['MaxSz'], CTypeId=model['TypeId'],
+    defs = dict(CK=model['K'], CFlav=model['Flav'], CNInl=model['NInl'], CMaxSz=model['MaxSz'], CTypeId=model['TypeId'], CAllocId=model['AllocId'],
                 CVals=set(params['Vals']), CIts=set(params['Its']), CRLens=set(params['RLens']),
                 COps=Raw(params['Ops']))
     cfg = ['SPECIFICATION Spec', 'CONSTANTS', ' K <- CK', ' Flav <- CFlav', ' NInl <- CNInl', ' MaxSz <- CMaxSz',
-           ' TypeId <- CTypeId', ' Vals <- CVals', ' MaxLen = %d' % params['MaxLen'], ' MaxCnt = %d' % params['MaxCnt'],
-           ' Its <- CIts', ' RLens <- CRLens', ' Ops <- COps', 'VIEW View', 'INVARIANT Inv', 'PROPERTY StepProps',
+           ' TypeId <- CTypeId', ' AllocId <- CAllocId', ' Vals <- CVals', ' MaxLen = %d' % params['MaxLen'], ' MaxCnt = %d' % params['MaxCnt'],
+           ' Its <- CIts', ' RLens <- CRLens', ' Ops <- COps', ' Alias = %s' % ('TRUE' if params.get('Alias', True) else 'FALSE'), 'VIEW View', 'INVARIANT Inv', 'PROPERTY StepProps',
            'ACTION_CONSTRAINT Export']
     write_mc(d, 'MC_gen', 'MCVec', defs, cfg)
     outp = os.path.join(d, 'export.txt')
@@ -126,12 +127,12 @@ def sim_behaviours(base, model, params, num, depth, seed, name):
     if os.path.exists(done):
         return d, json.load(open(done))
     copy_specs(d)
-    defs = dict(CK=model['K'], CFlav=model['Flav'], CNInl=model['NInl'], CMaxSz=model['MaxSz'], CTypeId=model['TypeId'],
+    defs = dict(CK=model['K'], CFlav=model['Flav'], CNInl=model['NInl'], CMaxSz=model['MaxSz'], CTypeId=model['TypeId'], CAllocId=model['AllocId'],
                 CVals=set(params['Vals']), CIts=set(params['Its']), CRLens=set(params['RLens']),
                 COps=Raw(params['Ops']))
     cfg = ['SPECIFICATION SpecRandom', 'CONSTANTS', ' K <- CK', ' Flav <- CFlav', ' NInl <- CNInl', ' MaxSz <- CMaxSz',
-           ' TypeId <- CTypeId', ' Vals <- CVals', ' MaxLen = %d' % params['MaxLen'], ' MaxCnt = %d' % params['MaxCnt'],
-           ' Its <- CIts', ' RLens <- CRLens', ' Ops <- COps', 'INVARIANT Inv', 'ACTION_CONSTRAINT ExportSim']
+           ' TypeId <- CTypeId', ' AllocId <- CAllocId', ' Vals <- CVals', ' MaxLen = %d' % params['MaxLen'], ' MaxCnt = %d' % params['MaxCnt'],
+           ' Its <- CIts', ' RLens <- CRLens', ' Ops <- COps', ' Alias = %s' % ('TRUE' if params.get('Alias', True) else 'FALSE'), 'INVARIANT Inv', 'ACTION_CONSTRAINT ExportSim']
     write_mc(d, 'MC_sim', 'MCVec', defs, cfg)
     outp = os.path.join(d, 'export.txt')
     rc, _, dt = tlc(d, 'MC_sim', 'MC_sim.cfg', workers=1, outfile=outp, timeout=3000, heap='4g',
